@@ -351,6 +351,14 @@ func (f *FuncCtx) countCall(text string, args []Val, e *ast.CallExpr, env *Env) 
 					bound[fmt.Sprintf("u%d", i+1)] = a
 				}
 			}
+			if strings.HasPrefix(text, "send ") {
+				// nonblocking: the send is a case of a select that has a default clause (it cannot make this goroutine wait)
+				nb := "false"
+				if f.sendNonBlocking {
+					nb = "true"
+				}
+				bound["nonblocking"] = f.boolVal(nb)
+			}
 			for k, cl := range reqs {
 				sc := &specCtx{bound: []map[string]Val{bound}, old: f.entry, pos: sitePos, scope: fr.scope, pcs: f.PC, innerPos: e.Pos()}
 				g := f.evalClause(cl, env, sc)
